@@ -509,6 +509,25 @@ def run_impl(schema, doc, data, variables, operation_name=None):
             "calls": log, "messages": [e.message for e in errs], "raw": res.data, "fields": fields}
 
 
+def null_directive_condition(schema, doc, op, variables):
+    """A variable that is null or has no value reaches the `if` of @skip/@include."""
+    from graphql.execution.values import get_variable_values
+    from graphql.language import ast as A, visit, Visitor
+    coerced = get_variable_values(schema, op.variable_definitions or (), variables)
+    if isinstance(coerced, list):
+        return False
+    bad = []
+
+    class V(Visitor):
+        def enter_directive(self, node, *_):
+            if node.name.value in ("skip", "include"):
+                for a in node.arguments or ():
+                    if isinstance(a.value, A.VariableNode) and coerced.coerced.get(a.value.name.value) is None:
+                        bad.append(a.value.name.value)
+    visit(doc, V())
+    return bool(bad)
+
+
 # --------------------------------------------------------------------------- generation: schema
 
 SCALARS = ["Int", "Float", "String", "Boolean", "ID"]
